@@ -96,6 +96,12 @@ void save_set_options_for_QT(size_t level)
    log_rule_B("use_options_overriding_for_qt_macros");
    assert(options::use_options_overriding_for_qt_macros());
 
+   if (QT_SIGNAL_SLOT_found)
+   {
+      // nested SIGNAL/SLOT: the options are overridden already, saving them
+      // again would record the override as the user's values
+      return;
+   }
    LOG_FMT(LGUY, "save values, level=%zu\n", level);
    // save the values
    QT_SIGNAL_SLOT_level = level;
